@@ -151,20 +151,27 @@ def check(case, rec):
     """case = {'fs':..., 'marker': bool, 'cut': int|None}; cut None = all cuts (each counted as an evaluation)"""
     fs = case['fs']
     marker = bool(case.get('marker'))
+    if case.get('picks') is not None:
+        # same logical content, encoded with inherited metadata (carried-over lists, 'same' indexes, metadata-less segments)
+        from vf import plans as P
+        ex_logical = expected_content(fs)
+        fs, _plans = P.encode_with_plans(fs, lambda i, alts: P.nth_plan(alts, case['picks'][i]))
+    else:
+        ex_logical = None
     if marker:
         fs = dict(fs)
         segs = list(fs['segments'])
         segs[-1] = dict(segs[-1], marker=True)
         fs['segments'] = segs
     data, _i, lay = encode_file(fs)
-    ex = expected_content(fs)
+    ex = ex_logical if ex_logical is not None else expected_content(fs)
     cuts = [case['cut']] if case.get('cut') is not None else range(4, len(data) + 1)
     classes = S.spec_classes(fs)
     first = True
     for cut in cuts:
         if not first:
             rec.end()
-        rec.begin({'fs': case['fs'], 'marker': marker, 'cut': cut})
+        rec.begin({'fs': case['fs'], 'marker': marker, 'cut': cut, 'picks': case.get('picks')})
         first = False
         rec.label(*classes)
         rec.label('marker' if marker else 'explicit')
@@ -181,17 +188,29 @@ def cases(draw, **kw):
     return {'fs': fs, 'marker': marker, 'cut': None}
 
 
+@st.composite
+def plan_cases(draw):
+    from props.C02 import history
+    h = draw(history(max_segments=4, max_channels=3))
+    marker = draw(st.booleans()) and marker_ok(h['fs'])
+    return {'fs': h['fs'], 'picks': h['picks'], 'marker': marker, 'cut': None}
+
+
 def jobs(tier):
     if tier == 'quick':
         return [Job('files_x_all_cuts', 'hyp', lambda: cases(), n=200, exhaustive=False,
                     note='every cut offset 4..len(file) of each generated file'),
                 Job('data_heavy_files_x_all_cuts', 'hyp',
                     lambda: cases(props=False, nodata_entries=False, max_n=5, max_chunks=4), n=200,
-                    note='every cut offset 4..len(file) of each generated file')]
+                    note='every cut offset 4..len(file) of each generated file'),
+                Job('inherited_metadata_files_x_all_cuts', 'hyp', plan_cases, n=200,
+                    note='every cut offset of files encoded with carried-over object lists / metadata-less segments')]
     return [Job('files_x_all_cuts', 'hyp', lambda: cases(), n=6000,
                 note='every cut offset 4..len(file) of each generated file'),
             Job('data_heavy_files_x_all_cuts', 'hyp',
                 lambda: cases(props=False, nodata_entries=False, max_n=5, max_chunks=4), n=6000,
                 note='every cut offset 4..len(file) of each generated file'),
+            Job('inherited_metadata_files_x_all_cuts', 'hyp', plan_cases, n=6000,
+                note='every cut offset of files encoded with carried-over object lists / metadata-less segments'),
             Job('larger_files_x_all_cuts', 'hyp', lambda: cases(max_segments=5, max_n=6, max_chunks=4, max_channels=4),
                 n=1500, note='every cut offset of each generated file')]
